@@ -201,6 +201,12 @@ def gen_cfg(rng, zones=True, predefined=True, bits=None):
         s = rng.randint(1, 5)
         a = rng.randint(gs, ge - s)
         cfg['preData'].append(('PD_BUF', a, rng.randint(0, 300), s))
+        if rng.random() < 0.5:
+            # a second block with another value and size right behind (or a few bytes after) the first one
+            s2 = rng.randint(1, 4)
+            a2 = a + s + rng.choice([0, 0, 1, 5])
+            if a2 + s2 - 1 <= ge:
+                cfg['preData'].append(('PD_TAB', a2, rng.randint(0, 300), s2))
     return cfg
 
 
